@@ -623,6 +623,7 @@ func genTrieCase(r *core.Rng, depth int) *TrieCase {
 // RunC15 is one simulated run: one seeded history (or, for the first runs, a
 // slice of the fixed exhaustive sweep).
 func RunC15(ctx *core.Ctx, r *core.Rng) {
+	Noise(ctx, r)
 	hookBase := keyOrderTotal
 	tr := &trieTrace{states: map[uint64]struct{}{}, trans: map[uint64]struct{}{}, probes: ctx.Stats}
 	sweepSlices := trieSweepSlices(ctx.Tier)
